@@ -76,6 +76,7 @@ package ixbuf
 // Lookup returns the stored entry of the unique slot with that key, or 0.
 //@ func (ib *ixbuf) Lookup(key) (r)
 //@   requires ib != nil && wfChunks(ib) && (ib.size == 0 <==> len(ib.chunks) == 0)
+//@   defines r == ixLook(ib, key)
 //@   ensures! found: forall ci, i :: 0 <= ci && ci < len(ib.chunks) && 0 <= i && i < len(ib.chunks[ci]) && ib.chunks[ci][i].key == key ==> r == ib.chunks[ci][i].off
 //@   ensures! notfound: (forall ci, i :: 0 <= ci && ci < len(ib.chunks) && 0 <= i && i < len(ib.chunks[ci]) ==> ib.chunks[ci][i].key != key) ==> r == 0
 
